@@ -10,9 +10,10 @@
    The operator bodies are functions of (state, text object, event): the
    event carries what the bodies read from it - [earg] = event.arg (after
    the text-object wrapper multiplied operator count and motion count) and
-   [ekeys] = the .data of event.key_sequence, which in navigation mode is the
-   key sequence OF THE TEXT OBJECT, not of the operator (the register
-   variants read key_sequence[1] from it - as coded). *)
+   [ekeys] = the .data of event.key_sequence as the operator body sees it:
+   since fix f3ffc71 the wrapper installed by the operator key replaces the
+   text object's key sequence by the operator's own (the register variants
+   read key_sequence[1] from it). *)
 From Coq Require Import ZArith List Bool.
 From PTK Require Import Lib.Sx Lib.Py Gen.Whitespace Model.Document Model.BufferEdit
   Model.C02_DocQueries.
@@ -42,9 +43,12 @@ Definition to_sorted (o : tobj) : Z * Z :=
 Definition line_at (d : doc) (row : Z) : str :=
   match index (lines d) row with Some l => l | None => [] end.
 
+(* as in /repo now (fix f3ffc71): the exclusive-column-0 adjustment is made
+   only for a non-empty range *)
 Definition operator_range (d : doc) (o : tobj) : Z * Z :=
   let '(s, e) := to_sorted o in
-  let e1 := if is_excl (ttype o) && (snd (translate_index_to_position d (e + dcur d)) =? 0)
+  let e1 := if is_excl (ttype o) && (s <? e)
+               && (snd (translate_index_to_position d (e + dcur d)) =? 0)
             then e - 1 else e in
   let e2 := if is_incl (ttype o) then e1 + 1 else e1 in
   if is_linew (ttype o) then
@@ -124,14 +128,19 @@ Definition cut_selection (text : str) (c o : Z) (st : Z) : option (str * Z * cda
   if len remaining <? newcur then None
   else Some (remaining, newcur, mkcd cut_text' st).
 
-(* TextObject.cut(buffer) *)
+(* TextObject.cut(buffer), as in /repo now: an empty non-linewise range cuts
+   nothing (fix f3ffc71); the exclusive "to -= 1" is not applied to BLOCK
+   objects (fix e0cf816) *)
 Definition to_cut (b : buf) (o : tobj) : option (str * Z * cdata) :=
   let '(f, t) := operator_range (bdoc b) o in
-  let from_ := f + bcur b in
-  let to := t + bcur b in
-  let to' := if is_linew (ttype o) then to else to - 1 in
-  if len (btext b) <? to' then None
-  else cut_selection (btext b) to' from_ (selection_type (ttype o)).
+  if negb (is_linew (ttype o)) && (t <=? f)
+  then Some (btext b, bcur b, mkcd [] (selection_type (ttype o)))
+  else
+    let from_ := f + bcur b in
+    let to := t + bcur b in
+    let to' := if is_linew (ttype o) || is_block (ttype o) then to else to - 1 in
+    if len (btext b) <? to' then None
+    else cut_selection (btext b) to' from_ (selection_type (ttype o)).
 
 (* ---------------------------------------------------------------------- *)
 (* Operators *)
@@ -188,7 +197,8 @@ Definition op_yank_reg (st : vst) (o : tobj) (ev : event) : vres :=
       if is_regname k then
         match to_cut (vbuf st) o with
         | None => (1, st)
-        | Some (_, _, cd) => (0, mkvst (vbuf st) (vclip st) (Some (k, cd)) (vins st))
+        | Some (_, _, cd) =>
+            (0, if nonempty (ctext cd) then mkvst (vbuf st) (vclip st) (Some (k, cd)) (vins st) else st)
         end
       else (0, st)
   end.
@@ -322,13 +332,12 @@ Definition fix_vi_cursor (b : buf) : buf :=
   if at_eol && (0 <? len (current_line d)) then set_cursor b (bcur b - 1) else b.
 
 (* ---------------------------------------------------------------------- *)
-(* The repaired functions of fixes/C08-empty-span-noop.patch: the
-   exclusive-column-0 adjustment only for a non-empty range, and an empty
-   range cuts nothing. *)
-Definition operator_range_fixed (d : doc) (o : tobj) : Z * Z :=
+(* The functions as they stood at the pinned commit (before fix f3ffc71):
+   the column-0 adjustment also on an empty range, and no empty-range guard in
+   cut.  Kept only for the _pinned_refuted theorems. *)
+Definition operator_range_pinned (d : doc) (o : tobj) : Z * Z :=
   let '(s, e) := to_sorted o in
-  let e1 := if is_excl (ttype o) && (s <? e)
-               && (snd (translate_index_to_position d (e + dcur d)) =? 0)
+  let e1 := if is_excl (ttype o) && (snd (translate_index_to_position d (e + dcur d)) =? 0)
             then e - 1 else e in
   let e2 := if is_incl (ttype o) then e1 + 1 else e1 in
   if is_linew (ttype o) then
@@ -339,19 +348,16 @@ Definition operator_range_fixed (d : doc) (o : tobj) : Z * Z :=
     (s', e')
   else (s, e2).
 
-Definition to_cut_fixed (b : buf) (o : tobj) : option (str * Z * cdata) :=
-  let '(f, t) := operator_range_fixed (bdoc b) o in
-  if negb (is_linew (ttype o)) && (t <=? f)
-  then Some (btext b, bcur b, mkcd [] (selection_type (ttype o)))
-  else
-    let from_ := f + bcur b in
-    let to := t + bcur b in
-    let to' := if is_linew (ttype o) then to else to - 1 in
-    if len (btext b) <? to' then None
-    else cut_selection (btext b) to' from_ (selection_type (ttype o)).
+Definition to_cut_pinned (b : buf) (o : tobj) : option (str * Z * cdata) :=
+  let '(f, t) := operator_range_pinned (bdoc b) o in
+  let from_ := f + bcur b in
+  let to := t + bcur b in
+  let to' := if is_linew (ttype o) then to else to - 1 in
+  if len (btext b) <? to' then None
+  else cut_selection (btext b) to' from_ (selection_type (ttype o)).
 
-Definition op_delete_fixed (delete_only : bool) (st : vst) (o : tobj) : vres :=
-  match to_cut_fixed (vbuf st) o with
+Definition op_delete_pinned (delete_only : bool) (st : vst) (o : tobj) : vres :=
+  match to_cut_pinned (vbuf st) o with
   | None => (1, st)
   | Some (t', c', cd) =>
       let st1 := mkvst (set_doc t' c') (vclip st) (vreg st) (vins st) in
